@@ -166,12 +166,16 @@ def r7(src):  # trafficshape/conn.go: per-connection buckets are stopped in sort
 LOCK_RE = re.compile(r"^([ \t]*)([A-Za-z_][\w\.\[\]\(\)\*]*\.R?Lock\(\))[ \t]*$", re.M)
 
 
-def lock_yield(label):
+def lock_yield(label, split=False):
     # R8: a yield point before every statement that acquires a mutex in the file; the harness parks
     # a goroutine there so that another one can run between two critical sections (or between the
     # check and the act of one that was split). Any number of sites >= 1: the rewrite is generic.
     def fn(src):
-        out, n = LOCK_RE.subn(lambda m: '%sverifYield("lock:%s")\n%s%s' % (m.group(1), label, m.group(1), m.group(2)), src)
+        # (split: read-lock acquisitions get the site name "rlock:<label>", so that a world can tell
+        # them from write-lock acquisitions)
+        def site(m):
+            return ("rlock:" if split and m.group(2).endswith(".RLock()") else "lock:") + label
+        out, n = LOCK_RE.subn(lambda m: '%sverifYield("%s")\n%s%s' % (m.group(1), site(m), m.group(1), m.group(2)), src)
         return out, n, -1
     return fn
 
@@ -193,6 +197,7 @@ REWRITES = [
     ("R8", "trafficshape/conn.go", lock_yield("trafficshape")),
     ("R8", "trafficshape/handler.go", lock_yield("trafficshape")),
     ("R8", "trafficshape/listener.go", lock_yield("trafficshape")),
+    ("R8", "marbl/handler.go", lock_yield("marbl", split=True)),
 ]
 
 
